@@ -164,7 +164,10 @@ func sortProblems(ps []problem) {
 		if a.Where != b.Where {
 			return a.Where < b.Where
 		}
-		return a.Detail < b.Detail
+		if a.Detail != b.Detail {
+			return a.Detail < b.Detail
+		}
+		return a.Msg < b.Msg
 	})
 }
 
@@ -310,7 +313,7 @@ func compare(cs *Case, m *model, obs observed) (ps []problem) {
 			case !ok:
 				ps = append(ps, problem{"scope", n.dotted(), "sees-foreign/" + leafKind(n, leaf) + "/" + srcRelation(n, gv), fmt.Sprintf("%s sees %s=%s which is not destined for it (expected .Values %s)", n.dotted(), leaf, gv, js(want))})
 			case wv != gv:
-				ps = append(ps, problem{"scope", n.dotted(), "wrong-value/" + leafKind(n, leaf) + "/" + srcRelation(n, gv) + "-instead-of-" + srcRelation(n, wv), fmt.Sprintf("%s sees %s=%s, must be %s (expected .Values %s)", n.dotted(), leaf, gv, wv, js(want))})
+				ps = append(ps, problem{"scope", n.dotted(), "wrong-value/" + leafKind(n, leaf) + "/" + srcRelation(n, gv), fmt.Sprintf("%s sees %s=%s, must be %s (expected .Values %s)", n.dotted(), leaf, gv, wv, js(want))})
 			}
 		}
 		for leaf, wv := range wl {
